@@ -169,7 +169,16 @@ let run_sched_case k hdr body =
           s := s1; decr g;
           if ev_is_bad ev then anybad := true
         done;
-        Buffer.add_string b (Printf.sprintf "%d:%s " w tag);
+        (* the counts of all existing objects when the thread parks before its next atomic increment / decrement *)
+        let th = List.nth !s.s_thr (w+1) in
+        let parks_at_atomic = match th.t_todo with (AInc (_, _) | ADec _ | ADecKeep _) :: _ -> true | _ -> false in
+        let snap =
+          if not parks_at_atomic then "-" else begin
+            let sb = Buffer.create 64 in
+            List.iteri (fun id ob -> match ob.o_st with Dead -> () | Releasing when not ob.o_pooled -> () (* its destructor has begun *) | _ -> Buffer.add_string sb (Printf.sprintf "%d=%d," id (int_of_nat ob.o_cnt))) !s.s_heap;
+            Buffer.contents sb
+          end in
+        Buffer.add_string b (Printf.sprintf "%d:%s/%s " w tag snap);
         loop r w (guard - 1) in
     if nw > 0 then loop sched (-1) 20000;
     Buffer.add_string b "| ";
